@@ -106,7 +106,9 @@ func c18GenArchive(t *rapid.T) ([]byte, string) {
 	format := rapid.SampledFrom([]string{"ustar", "pax", "gnu", "auto"}).Draw(t, "format")
 	n := rapid.IntRange(1, 3).Draw(t, "nfiles")
 	for i := 0; i < n; i++ {
-		name := rapid.SampledFrom([]string{"a.txt", "dir/file.bin", "README", "x", "日本語.txt", "café/menu", strings.Repeat("long/", 25) + "name.txt", strings.Repeat("n", 99), strings.Repeat("m", 101), "0", " lead", "./rel"}).Draw(t, "name")
+		name := rapid.SampledFrom([]string{"a.txt", "dir/file.bin", "README", "x", "日本語.txt", "café/menu", strings.Repeat("long/", 25) + "name.txt", strings.Repeat("n", 99), strings.Repeat("m", 101), "0", " lead", "./rel",
+			// member names that begin like the magic number of another format
+			"BMW/readme.txt", "BM", "ID3v2-tags.md", "II*\x00.tif", "MM\x00*", "GIF89a.txt", "fLaC.notes", "MThd", "FORM", ".snd", "8BPS.psd", "%PDF-notes", "MZ.exe", "OggS", "RIFF", "xar!", "BZh91", "SIMPLE", "wOFF", "Rar!", "070707", "#!AMR", "MAC ", "MPCK", "FLV", "CWS", "icns", "PAR1", "d8:announce", "ftyp", "\x00\x00\x01\x00", "wOF2", "OTTO", "ttcf", "LZIP", "MSCF", "TZif"}).Draw(t, "name")
 		body := rapid.SliceOfN(rapid.Byte(), 0, 60).Draw(t, "body")
 		h := &atar.Header{
 			Name:    name,
